@@ -36,10 +36,14 @@ type world struct {
 	cmdOn   map[string]vxfw.Command
 	// delegate: a widget that answers FocusIn by handing the focus on to another widget
 	delegate map[string]string
-	nodes    map[string]vxfw.Widget
-	draws    int
-	lastN    int
-	lastKey  int
+	// hidden: nodes their parent leaves out of the layout; revealOnEnter: a node that answers MouseEnter by
+	// revealing another node (a menu growing an item under the pointer) and asking for a redraw
+	hidden        map[string]bool
+	revealOnEnter map[string]string
+	nodes         map[string]vxfw.Widget
+	draws         int
+	lastN         int
+	lastKey       int
 	// consumeNotes: every node answers MouseEnter / MouseLeave / FocusIn / FocusOut with
 	// ConsumeEventCmd (as vxfw/button does): a consume outside a dispatch must not leak into the next event
 	consumeNotes bool
@@ -49,6 +53,7 @@ type world struct {
 }
 
 type setFocus struct{ target string }
+type reveal struct{ name string }
 type custom struct{}
 type marked struct{ id string } // a node configured in cmdOn returns its command when it sees this
 
@@ -113,6 +118,9 @@ func (n *node) special(ev vaxis.Event) (vxfw.Command, bool) {
 		return vxfw.BatchCmd{vxfw.QuitCmd{}, vxfw.ConsumeEventCmd{}}, true
 	case setFocus:
 		return vxfw.BatchCmd{vxfw.FocusWidgetCmd(n.wd.nodes[ev.target]), vxfw.ConsumeEventCmd{}}, true
+	case reveal:
+		delete(n.wd.hidden, ev.name)
+		return vxfw.BatchCmd{vxfw.RedrawCmd{}, vxfw.ConsumeEventCmd{}}, true
 	case vaxis.Resize:
 		return nil, true
 	}
@@ -127,6 +135,12 @@ func (n *node) handle(ev vaxis.Event, phase string) (vxfw.Command, error) {
 	if m, ok := ev.(marked); ok {
 		if cmd, ok := n.wd.cmdOn[n.spec.name+":"+m.id]; ok {
 			return cmd, nil
+		}
+	}
+	if _, ok := ev.(vxfw.MouseEnter); ok {
+		if other, ok := n.wd.revealOnEnter[n.spec.name]; ok && n.wd.hidden[other] {
+			delete(n.wd.hidden, other)
+			return vxfw.RedrawCmd{}, nil
 		}
 	}
 	if _, ok := ev.(vaxis.FocusIn); ok {
@@ -163,6 +177,9 @@ func (n *node) Draw(ctx vxfw.DrawContext) (vxfw.Surface, error) {
 	var self vxfw.Widget = n.wd.nodes[n.spec.name]
 	s := vxfw.NewSurface(uint16(n.spec.w), uint16(n.spec.h), self)
 	for i, c := range n.spec.children {
+		if n.wd.hidden[c.name] {
+			continue
+		}
 		cs, _ := n.kids[i].Draw(ctx)
 		ss := vxfw.NewSubSurface(c.col, c.row, cs)
 		ss.ZIndex = c.z
@@ -593,6 +610,53 @@ func hoverSweep(idx, n int) {
 	}
 }
 
+// hoverRelayoutSweep: a menu opens under the resting pointer; its MouseEnter handler, called while the frame
+// is being prepared, adds an item under the pointer and asks for a redraw, so the frame is laid out a second
+// time before it is shown. The next press is routed along the widgets of the frame that was shown.
+func hoverRelayoutSweep() {
+	mk := func(name string, col, row, w, h int, kids ...*nodeSpec) *nodeSpec {
+		return &nodeSpec{name: name, col: col, row: row, w: w, h: h, children: kids}
+	}
+	for _, item := range [][4]int{{1, 0, 2, 1}, {0, 0, 3, 2}, {0, 1, 1, 1}} {
+		t := tree{fmt.Sprintf("root(menu(item@%v))", item), mk("root", 0, 0, 5, 3, mk("A", 0, 0, 3, 2, mk("C", item[0], item[1], item[2], item[3]))), false}
+		for row := 0; row < scrH; row++ {
+			for col := 0; col < scrW; col++ {
+				wd, rig := startRig(t, map[string]bool{})
+				wd.hidden = map[string]bool{"A": true, "C": true}
+				wd.revealOnEnter = map[string]string{"A": "C"}
+				rig.Post(vaxis.Redraw{})
+				rig.Tick()
+				rig.Inject(mouseBytes(col, row, true))
+				rig.Post(reveal{"A"})
+				rig.Tick()
+				wd.log = nil
+				rig.Inject(mouseBytes(col, row, false))
+				r.Count("routing_cases", 1)
+				got := filterRouting(wd.log, "press")
+				var want []string
+				inA := col < 3 && row < 2
+				inC := inA && col >= item[0] && col < item[0]+item[2] && row >= item[1] && row < item[1]+item[3]
+				switch {
+				case col >= 5 || row >= 3:
+				case inC:
+					want = []string{"C:press:target", "A:press:bubble", "root:press:bubble"}
+				case inA:
+					want = []string{"A:press:target", "root:press:bubble"}
+				default:
+					want = []string{"root:press:target"}
+				}
+				if strings.Join(got, " ") != strings.Join(want, " ") {
+					r.Violation("C15|mouse-routing|after-relayout-within-a-frame", 0, detail{Tree: t.name, Setup: fmt.Sprintf("pointer resting at %d,%d; a menu opens under it and grows an item from its MouseEnter handler (second layout of the same frame)", col, row),
+						Event: fmt.Sprintf("press at %d,%d", col, row), Got: got, Why: fmt.Sprintf("want %v: the chain of widgets under the pointer in the frame that was shown", want)})
+				} else {
+					r.Distinct(explore.Hash("hover-relayout", t.name, fmt.Sprint(col, row)))
+				}
+				rig.Stop()
+			}
+		}
+	}
+}
+
 // relayoutSweep: the focused leaf keeps the focus while the layout moves it under another parent;
 // after the next frame a key follows the new ancestor chain.
 func relayoutSweep(idx, n int) {
@@ -860,6 +924,7 @@ func main() {
 			relayoutSweep(idx, n)
 		case "commands":
 			commandSweep()
+			hoverRelayoutSweep()
 		}
 		if idx == 0 {
 			r.Sample(map[string]any{"part": arg})
@@ -873,7 +938,7 @@ func main() {
 	n := r.Get("routing_cases") + r.Get("hover_cases") + r.Get("command_cases") + r.Get("notification_cases") + r.Get("relayout_cases")
 	r.Finish(explore.Coverage{
 		States: -1, Transitions: n, Traces: n, Evaluations: n,
-		Rule:       "8 widget trees (1-4 nodes, depth <= 3, disjoint and overlapping siblings with both z orders) on a 6x3 screen with a 5x3 root; routing: every capturer mask x every focus position x every assignment of a consuming phase to at most two nodes x {key (injected as terminal input), custom event}, and a press at every screen cell, each compared with a reference router (capture root-down, target, bubble up, stop at the first consumer; the target's own capture handler left open); hover: every sequence of <= n steps over {pointer motion at 6 points incl. outside the root, terminal focus out/in, frame} followed by a focus-out and a frame: per widget enter/leave must alternate starting with enter, end closed, and no enter may arrive between a terminal focus-out and the next pointer or focus-in event; notifications: with every widget consuming MouseEnter/MouseLeave/FocusIn/FocusOut (delivered outside the three phases), after each of 6 notification-raising steps the next key (arriving in the same read) is routed in full, for every capturer mask and focus position; re-layout: a focused leaf drawn alternately under two parents, a key after each frame follows the new ancestor chain, for every capturer mask; focus: every (old, new) pair gets exactly one focus-out and one focus-in; delegation: for every (old, via, new) triple with via answering FocusIn by focusing new, the four notifications in order and the next event targeted at new; commands: Redraw, Refresh, Quit, batches, nested batches each take effect exactly once. All through the real App.Run on a fake console, stepped with virtual frame ticks. distinct = cases that passed",
+		Rule:       "8 widget trees (1-4 nodes, depth <= 3, disjoint and overlapping siblings with both z orders) on a 6x3 screen with a 5x3 root; routing: every capturer mask x every focus position x every assignment of a consuming phase to at most two nodes x {key (injected as terminal input), custom event}, and a press at every screen cell, each compared with a reference router (capture root-down, target, bubble up, stop at the first consumer; the target's own capture handler left open); hover: every sequence of <= n steps over {pointer motion at 6 points incl. outside the root, terminal focus out/in, frame} followed by a focus-out and a frame: per widget enter/leave must alternate starting with enter, end closed, and no enter may arrive between a terminal focus-out and the next pointer or focus-in event; notifications: with every widget consuming MouseEnter/MouseLeave/FocusIn/FocusOut (delivered outside the three phases), after each of 6 notification-raising steps the next key (arriving in the same read) is routed in full, for every capturer mask and focus position; re-layout within a frame: a menu opening under the resting pointer grows an item from its MouseEnter handler (the frame is laid out twice), the next press at each of the 15 cells follows the frame that was shown; re-layout: a focused leaf drawn alternately under two parents, a key after each frame follows the new ancestor chain, for every capturer mask; focus: every (old, new) pair gets exactly one focus-out and one focus-in; delegation: for every (old, via, new) triple with via answering FocusIn by focusing new, the four notifications in order and the next event targeted at new; commands: Redraw, Refresh, Quit, batches, nested batches each take effect exactly once. All through the real App.Run on a fake console, stepped with virtual frame ticks. distinct = cases that passed",
 		Exhaustive: true,
 		Bounds:     map[string]any{"hover_sequence_len": r.Pick(3, 4)},
 		Assumptions: []string{"whether the focused/target widget's own CaptureEvent runs is not fixed by the property and is accepted either way",
